@@ -232,6 +232,7 @@ class Verifier:
             st = snap.clone()
             names = {k: memo_clone(v, st._memo) for k, v in snames.items()}
             eng.st = st
+            eng.foreign = list(getattr(snap, '_foreign', []))
             eng.probes = dict(probes)
             eng.frm = frm
             if frm is not None and frm >= 0:
@@ -291,7 +292,22 @@ class Verifier:
                     st.assume(z3.Implies(pnd, z3.And(z3.Select(cnt, e) >= 1, n >= 1)))
                     st.ghost[gname + '.cnt'] = z3.Store(cnt, e, z3.Select(cnt, e) - z3.If(pnd, 1, 0))
                     st.ghost[gname + '.n'] = n - z3.If(pnd, 1, 0)
+        # rely/guarantee: facts carried by OTHER process instances across their yields must survive this function / segment
+        eng.foreign = []
+        for cf in (getattr(self.spec, 'carried', []) if c.invariants else []):
+            fp = {k: eng.fresh_of_type(t, 'foreign_' + k) for k, t in cf.params.items()}
+            sv0 = SV(eng, st, names)
+            f0 = cf.formula(sv0, fp, names)
+            if f0 is None:
+                continue
+            st.assume(f0)
+            if cf.distinct is not None:
+                dd = cf.distinct(sv0, fp, names, c.qual, frm)
+                if dd is not None:
+                    st.assume(dd)
+            eng.foreign.append((cf, fp))
         snap = st.clone()
+        snap._foreign = list(eng.foreign)
         cache[ck] = (snap, {k: memo_clone(v, snap._memo) for k, v in names.items()}, names_position(), dict(eng.probes))
         st.locals = dict(names)
         old = eng.snapshot(names)
@@ -387,6 +403,13 @@ class Verifier:
     def check_outcome(self, eng, fi, c, names, old, outcome, frm=None):
         st = eng.st
         q = c.qual
+        if outcome[0] in ('yield', 'return') or (outcome[0] == 'raise' and c.raises.get(outcome[1], {}).get('unchanged', True) is False):
+            svn = SV(eng, st, names)
+            for cf, fp in getattr(eng, 'foreign', []):
+                f1 = cf.formula(svn, fp, names)
+                if f1 is not None:
+                    tagx = f"seg{frm}->{outcome[0]}" if frm is not None else outcome[0]
+                    eng.oblige(f"stable:{q}:{tagx}:{cf.name}", 'stable', f1)
         if outcome[0] in ('yield', 'return'):
             self.check_nondet(eng, c, names, f"seg{frm}")
             self.check_spawns(eng, q, f"seg{frm}" if frm is not None else 'call')
